@@ -128,8 +128,17 @@ def _prune_cache(keep=120):
         ents = [os.path.join(CACHE, f) for f in os.listdir(CACHE) if f.startswith("facts-")]
     except OSError:
         return
-    ents.sort(key=lambda p: os.path.getmtime(p), reverse=True)
+    def mt(p):
+        try:
+            return os.path.getmtime(p)
+        except OSError:
+            return 0
+    ents.sort(key=mt, reverse=True)
+    now = time.time()
     for p in ents[keep:]:
+        # never remove an entry another process may be about to read
+        if now - mt(p) < 900:
+            continue
         try:
             os.unlink(p)
         except OSError:
@@ -184,11 +193,11 @@ def get(cfg="default", repo=None, use_cache=True):
             os.rename(tmp, path)
             sys.stderr.write("[nfsa] extracted facts cfg=%s tree=%s in %.1fs\n" % (cfg, th, time.time() - t0))
             _prune_cache()
+        with open(path) as f:
+            facts = json.load(f)
     finally:
         fcntl.flock(lock, fcntl.LOCK_UN)
         lock.close()
-    with open(path) as f:
-        facts = json.load(f)
     facts["_tree_hash"] = th
     facts["_cfg"] = cfg
     os.utime(path, None)
